@@ -83,7 +83,7 @@ impl HttpConnector for TapClient {
                 Err(p) => {
                     // a panic below S3Service::call: recorded as a response with status 0
                     let msg = crate::core::panic_message(&p);
-                    this.tap.0.lock().unwrap()[idx].1 = Some(RawResponse { status: 0, headers: Vec::new(), frames: Vec::new(), trailers: None, body_error: Some(format!("PANIC: {msg}")) });
+                    this.tap.0.lock().unwrap()[idx].1 = Some(RawResponse { status: 0, headers: Vec::new(), frames: Vec::new(), trailers: None, body_error: Some(format!("PANIC: {msg}")), bytes_lost_to_the_body_contract: 0 });
                     return Err(conn_err(format!("verif: PANIC below S3Service::call: {msg}")));
                 }
             };
@@ -94,6 +94,7 @@ impl HttpConnector for TapClient {
                 frames: Vec::new(),
                 trailers: None,
                 body_error: None,
+                bytes_lost_to_the_body_contract: 0,
             };
             let mut all = Vec::new();
             loop {
